@@ -304,6 +304,37 @@ def corpus() -> typing.List[dict]:
     return cases
 
 
+def witness_corpus() -> typing.List[dict]:
+    """minimised witnesses of failure classes met while sweeping seeds (beyond the probed witnesses of known_findings.d/C06.json): they are
+    part of every run; each must be recognised by the trigger of its class (a listed finding or the stropping-fold exclusion)"""
+    def one(root, files, lookup=None):
+        return {'roots': dict({root: files}, **(lookup or {})), 'main': root, 'lookup': sorted(lookup or {})}
+    return [
+        # F-C06-CPP-NS-SHADOW (a) deeper namespace component named like the root; sibling reference through the parent scope
+        one('nsa', {'x/nsa/Plain.1.0.dsdl': 'uint8 v\n@sealed\n', 'c/U.1.0.dsdl': 'uint8 v\n@sealed\n',
+                    'x/nsa/T.1.0.dsdl': 'nsa.c.U.1.0 u\n@sealed\n', 'x/Sib.1.0.dsdl': 'nsa.x.nsa.Plain.1.0 p\n@sealed\n',
+                    'y/Far.1.0.dsdl': 'nsa.x.nsa.Plain.1.0 p\n@sealed\n'}),
+        # (a') a service opens a namespace of its own short name: service named like the root (the lead's seed-7 case, minimised)
+        one('atomic_flag', {'Z/alpha/break.255.0.dsdl': 'int5 Eta = -16\n@sealed\n',
+                            'Z/alpha/atomic_flag.255.1.dsdl': 'atomic_flag.Z.alpha.break.255.0[<=16] _Alignas\n@sealed\n---\nfloat32 throw = 1e0\n@extent 126 * 8\n'}),
+        # (b) root namespace spelled allocator_type (c++17-pmr: `using allocator_type` in every class)
+        one('allocator_type', {'y/Obj.1.0.dsdl': 'uint8 v\n@sealed\n', 'User.1.0.dsdl': 'allocator_type.y.Obj.1.0 o\n@sealed\n'}),
+        # (c) a field of class type named like the root namespace of a later reference
+        one('foo', {'U.1.0.dsdl': 'uint8 v\n@sealed\n', 'T.1.0.dsdl': 'foo.U.1.0 foo\nfoo.U.1.0 other\n@sealed\n',
+                    'T2.1.0.dsdl': 'uint8 foo\nfoo.U.1.0 other\n@sealed\n'}),
+        # (d) namespace components named std / size_t hide the templates' own std:: and unqualified size_t
+        one('chr', {'std/Break.1.0.dsdl': 'uint8[<=2] v\n@sealed\n', 'size_t/U.1.0.dsdl': '@union\nuint8 a\nuint16 b\n@sealed\n',
+                    'size_t.0.1.dsdl': '@union\nfloat64 a\nuint11[4] b\n@sealed\n---\n@sealed\n'}),
+        # the property's exclusion: names folded onto one identifier by the one-way stropping (field/field, field/constant)
+        one('fold', {'A.1.0.dsdl': 'uint32 _Alignas\nuint8 _alignas\n@sealed\n', 'B.1.0.dsdl': 'uint8 pragma = 1\nuint8 _pragma\n@sealed\n',
+                     'C.1.0.dsdl': 'fold.A.1.0 a\n@sealed\n'}),
+        # F-C06-CPP-GLOBAL-CLASH: gcc built-in function name as root namespace (no header needed)
+        one('tolower', {'T.1.0.dsdl': 'uint8 x\n@sealed\n'}),
+        # F-C06-PY-MODULE-SHADOW: a LOOKUP root named like a stdlib module breaks every module generated into the same directory
+        one('shd', {'T.1.0.dsdl': 'string.U.1.0 u\n@sealed\n'}, {'string': {'U.1.0.dsdl': 'uint8 v\n@sealed\n'}}),
+    ]
+
+
 # witnesses of the known findings (probed at run time)
 def witness_guard_fold() -> dict:
     return {'roots': {'gf': {
